@@ -7,16 +7,36 @@ Only property theorems live here; helper lemmas are in `Model/AssemblyLemmas.lea
 the running Python by the recorded-component correspondence of `tools/props/C13.py`.  All theorems hold for ALL
 lists of panels / stiffeners, all series orders and all component matrices.
 
+The STIFFENER KERNELS themselves (compmech/stiffener/models/*.pyx) are regenerated into `Gen/Stiff/*` on every run
+(tools/translate/gen_stiff.py) and characterised entry by entry in the last section of this file: the penalty connections of the 2-D blade
+(skin–flange) and of the T stiffener (skin–base) are the Hessians of their interface mismatch energies, symmetric and positive
+semi-definite; the 1-D blade flange kernels are the Hessians of the beam energies the source encodes (operator tables and weights in
+`Spec/StiffInterface.lean`) — symmetric, positive semi-definite exactly as far as the encoded weights are (`blade1d_kMf_psd_partial`,
+`blade1d_kMf_not_psd_counterexample`).
+
 What is NOT proved here (checked numerically on the implementation by the plugin only): that a CONNECTION or STIFFENER kernel
 asked to write at `(row0, col0)` returns its stand-alone matrix shifted there (for the PANEL kernels it is proved from the
 loop-nest model: `panel_kernel_placement`); additivity of the skin kernels over adjacent
-`y` intervals (hypothesis `hadd` of `skin_split_invariant`); positive semi-definiteness of a stiffener's
-contribution (its symmetry is proved: `stiffener_contribution_symmetric`).
+`y` intervals (hypothesis `hadd` of `skin_split_invariant`); positive semi-definiteness of a stiffener's whole finalised
+contribution as a COO list (its symmetry is proved: `stiffener_contribution_symmetric`; positive semi-definiteness is proved for the
+per-pair values of the stiffener kernels, and for the base / flange panels themselves in C02/C04).
 -/
 import CompmechVerif.Model.AssemblyLemmas
 import CompmechVerif.Model.PanelLoopLemmas
+import CompmechVerif.Gen.Stiff.Blade1D
+import CompmechVerif.Gen.Stiff.Blade2D
+import CompmechVerif.Gen.Stiff.T2D
+import CompmechVerif.Gen.Stiff.Literals
+import CompmechVerif.Spec.StiffInterfacePSD
 import Mathlib.Algebra.Field.Rat
 import Mathlib.Tactic.NormNum
+import Mathlib.Tactic.FinCases
+import Mathlib.Data.Fintype.Basic
+
+set_option linter.unnecessarySeqFocus false
+set_option linter.unusedSectionVars false
+set_option linter.unusedSimpArgs false
+set_option linter.unusedVariables false
 
 namespace Compmech.Asm.C13
 open Compmech.Asm
@@ -273,5 +293,303 @@ stand-alone result (kernel-checked instance: one field, m = 2, n = 1, row0 = 2, 
 theorem panel_kernel_placement_offdiagonal_counterexample :
     (loopNest 1 2 1 2 0 (fun _ _ _ _ _ _ => (1 : ℚ))).length ≠
       (shift 2 0 (loopNest 1 2 1 0 0 (fun _ _ _ _ _ _ => (1 : ℚ)))).length := by decide
+
+/-! ### the stiffener kernels (regenerated from compmech/stiffener/models/*.pyx: `Gen/Stiff/*`)
+
+Contexts and specification forms: `Core/StiffSpec.lean`; operator tables and weights: `Spec/StiffInterface.lean`; helper lemmas and the
+concrete instances used by the `example`s: `Spec/StiffInterfacePSD.lean`.  The entry theorems hold in every field of characteristic 0
+and for EVERY interpretation of the integral / point-value symbols (they are uniform in series indices, edge flags and positions); the
+positive semi-definiteness theorems are over ℝ and assume that the symbols are real integrals of products of continuous functions
+(which C10 establishes for the Bardell tables: `integral_*`, `integral_*_12`, and, for the mapped-argument family `integral_*_c0c1`
+the T stiffener uses, `map_*_integral`). -/
+
+section stiffener_kernels
+open Compmech.Panel Compmech.Gen.Stiff
+open scoped BigOperators
+
+variable {F : Type} [Field F] [CharZero F]
+
+/-! #### 2-D blade stiffener (`bladestiff2d_clt_donnell_bardell.pyx`): skin – flange penalty connection on the line `y = ys` -/
+
+/-- `fkCss`: every entry is the skin–skin block of the Hessian of `kt/2 ∫ (⟦u⟧² + ⟦v⟧² + ⟦w⟧²) dx + kr/2 ∫ ⟦w,y⟧² dx` along the stiffener line
+(length `a`), jumps `u_s − u_f`, `v_s − w_f`, `w_s + v_f`, `w_s,y − w_f,y` (`blade2dOps`); skin functions taken on `η = 2 ys/b − 1` -/
+theorem blade2d_ss_eq_hessian (C : CCtx F) (hk : C.kt ≠ 0) (h1 : C.b1 ≠ 0) (h2 : C.b2 ≠ 0) (ro co : Fin 3) :
+    Blade2D.ss.entry ro co C = lineHess C .x .y C.a1 (blade2dOps C) (penaltyW C) .p1 .p1 (fld3 ro) (fld3 co) := by
+  fin_cases ro <;> fin_cases co <;> stiff_eq_hess [blade2dOps]
+
+/-- `fkCsf`: the skin–flange block of the same Hessian; flange functions taken on its edge `η = −1` -/
+theorem blade2d_sf_eq_hessian (C : CCtx F) (hk : C.kt ≠ 0) (h1 : C.b1 ≠ 0) (h2 : C.b2 ≠ 0) (ro co : Fin 3) :
+    Blade2D.sf.entry ro co C = lineHess C .x .y C.a1 (blade2dOps C) (penaltyW C) .p1 .p2 (fld3 ro) (fld3 co) := by
+  fin_cases ro <;> fin_cases co <;> stiff_eq_hess [blade2dOps]
+
+/-- `fkCff`: the flange–flange block of the same Hessian -/
+theorem blade2d_ff_eq_hessian (C : CCtx F) (hk : C.kt ≠ 0) (h1 : C.b1 ≠ 0) (h2 : C.b2 ≠ 0) (ro co : Fin 3) :
+    Blade2D.ff.entry ro co C = lineHess C .x .y C.a1 (blade2dOps C) (penaltyW C) .p2 .p2 (fld3 ro) (fld3 co) := by
+  fin_cases ro <;> fin_cases co <;> stiff_eq_hess [blade2dOps]
+
+/-- the skin–flange connection matrix `[[kCss, kCsf], [kCsfᵀ, kCff]]` of a 2-D blade stiffener is SYMMETRIC: the entry for the degrees of
+freedom `(pA, ro, i, j)`, `(pB, co, k, l)` equals the entry for the exchanged pair — also inside the diagonal blocks, where both
+orders are computed by the kernel expressions (integrals along the line = real integrals of products of continuous functions) -/
+theorem blade2d_conn_symmetric (base : CCtx ℝ) (J : ConnIntegrals) (E : ConnEvals) (hk : base.kt ≠ 0)
+    (h1 : base.b1 ≠ 0) (h2 : base.b2 ≠ 0) (Z : Nat → Fld → Pan → Nat → ℝ → ℝ) (z₁ z₂ : ℝ) (hR : RealLineIntegrals J .x Z z₁ z₂)
+    (pA pB : Pan) (ro co : Fin 3) (i k j l : Nat) :
+    connEntry Blade2D.ss.entry Blade2D.sf.entry Blade2D.ff.entry base J E pA pB ro co i k j l
+      = connEntry Blade2D.ss.entry Blade2D.sf.entry Blade2D.ff.entry base J E pB pA co ro k i l j := by
+  cases pA <;> cases pB <;> simp only [connEntry]
+  · rw [blade2d_ss_eq_hessian (cctxAt base J E i k j l) hk h1 h2, blade2d_ss_eq_hessian (cctxAt base J E k i l j) hk h1 h2]
+    exact (lineHess_transpose base J E .x .y base.a1 Z z₁ z₂ hR _ _ _ _ _ _ _ _ _ _).symm
+  · rw [blade2d_ff_eq_hessian (cctxAt base J E i k j l) hk h1 h2, blade2d_ff_eq_hessian (cctxAt base J E k i l j) hk h1 h2]
+    exact (lineHess_transpose base J E .x .y base.a1 Z z₁ z₂ hR _ _ _ _ _ _ _ _ _ _).symm
+
+/-- … and POSITIVE SEMI-DEFINITE: for any finite family of degrees of freedom of skin and flange and any amplitudes `c`,
+`cᵀ K c = kt ∫ |⟦u⟧|² + kr ∫ ⟦w,y⟧² ≥ 0` whenever `kt, kr ≥ 0`, `a ≥ 0` -/
+theorem blade2d_conn_psd {ι : Type} (base : CCtx ℝ) (J : ConnIntegrals) (E : ConnEvals) (hk : base.kt ≠ 0)
+    (h1 : base.b1 ≠ 0) (h2 : base.b2 ≠ 0) (hkt : 0 ≤ base.kt) (hkr : 0 ≤ base.kr) (hlen : 0 ≤ base.a1)
+    (Z : Nat → Fld → Pan → Nat → ℝ → ℝ) (z₁ z₂ : ℝ) (hR : RealLineIntegrals J .x Z z₁ z₂)
+    (s : Finset ι) (pan : ι → Pan) (ro : ι → Fin 3) (ix iy : ι → Nat) (c : ι → ℝ) :
+    0 ≤ ∑ A ∈ s, ∑ B ∈ s, c A * c B *
+      connEntry Blade2D.ss.entry Blade2D.sf.entry Blade2D.ff.entry base J E (pan A) (pan B) (ro A) (ro B)
+        (ix A) (ix B) (iy A) (iy B) :=
+  connEntry_line_psd _ _ _ base J E .x .y base.a1 hlen Z z₁ z₂ hR (blade2dOps base) (penaltyW base)
+    (penaltyW_nonneg base hkt hkr)
+    (fun ro co i k j l => blade2d_ss_eq_hessian (cctxAt base J E i k j l) hk h1 h2 ro co)
+    (fun ro co i k j l => blade2d_sf_eq_hessian (cctxAt base J E i k j l) hk h1 h2 ro co)
+    (fun ro co i k j l => blade2d_ff_eq_hessian (cctxAt base J E i k j l) hk h1 h2 ro co) s pan ro ix iy c
+
+/-- non-vacuity: `a = 2`, `b = 2`, `bf = 1`, `kt = 1000`, `kr = 10`, monomials `t^(i+d)` (skin), `(1−t)^(i+d)` (flange) on `[−1, 1]` -/
+example {ι : Type} (s : Finset ι) (pan : ι → Pan) (ro : ι → Fin 3) (ix iy : ι → Nat) (c : ι → ℝ) :
+    0 ≤ ∑ A ∈ s, ∑ B ∈ s, c A * c B *
+      connEntry Blade2D.ss.entry Blade2D.sf.entry Blade2D.ff.entry ConnPSDExample.unitConn ConnPSDExample.monoJ
+        ConnPSDExample.monoE (pan A) (pan B) (ro A) (ro B) (ix A) (ix B) (iy A) (iy B) :=
+  blade2d_conn_psd _ _ _ (by norm_num [ConnPSDExample.unitConn]) (by norm_num [ConnPSDExample.unitConn])
+    (by norm_num [ConnPSDExample.unitConn]) (by norm_num [ConnPSDExample.unitConn]) (by norm_num [ConnPSDExample.unitConn])
+    (by norm_num [ConnPSDExample.unitConn]) ConnPSDExample.mono (-1) 1 (ConnPSDExample.monoJ_line _) s pan ro ix iy c
+
+example (pA pB : Pan) (ro co : Fin 3) (i k j l : Nat) :
+    connEntry Blade2D.ss.entry Blade2D.sf.entry Blade2D.ff.entry ConnPSDExample.unitConn ConnPSDExample.monoJ
+        ConnPSDExample.monoE pA pB ro co i k j l
+      = connEntry Blade2D.ss.entry Blade2D.sf.entry Blade2D.ff.entry ConnPSDExample.unitConn ConnPSDExample.monoJ
+        ConnPSDExample.monoE pB pA co ro k i l j :=
+  blade2d_conn_symmetric _ _ _ (by norm_num [ConnPSDExample.unitConn]) (by norm_num [ConnPSDExample.unitConn])
+    (by norm_num [ConnPSDExample.unitConn]) ConnPSDExample.mono (-1) 1 (ConnPSDExample.monoJ_line _) pA pB ro co i k j l
+
+/-! #### T stiffener (`tstiff2d_clt_donnell_bardell.pyx`): skin – base penalty connection over the strip `y1 ≤ y ≤ y2` -/
+
+/-- `fkCppy1y2`: every entry is the skin–skin block of the Hessian of the surface penalty `kt/2 ∬_strip (⟦u⟧² + ⟦v⟧² + ⟦w⟧²) dx dy` with the jumps
+`u_s + dpb·w_s,x − u_b`, `v_s + dpb·w_s,y − v_b`, `w_s − w_b` (`tsbOps`), written over the base's footprint `a × (y2 − y1)` (`TCtx.toC`:
+the strip integral `integral_*_12(eta1, eta2, …)` of two skin functions is `c1 = (y2 − y1)/b` times their integral in the base's coordinate) -/
+theorem tstiff_pp_eq_hessian (T : TCtx F) (ha : T.a ≠ 0) (hb : T.b ≠ 0) (hy : T.y2 - T.y1 ≠ 0) (ro co : Fin 3) :
+    T2D.pp.entry ro co T = surfHess T.toC (tsbOps T) (tsbW T) .p1 .p1 (fld3 ro) (fld3 co) := by
+  fin_cases ro <;> fin_cases co <;> stiff_eq_hess [tsbOps, tsbW, TCtx.toC, TCtx.JyBase, TCtx.c1]
+
+/-- `fkCpby1y2`: the skin–base block; the y integrals are the mapped-argument integrals `integral_*_c0c1(c0, c1, …)` (skin function at
+`c0 + c1 η′`, base function at `η′`), and the source's `c1 = 0.5 (eta2 − eta1)`, `eta = 2 y/b − 1`, is `(y2 − y1)/b` -/
+theorem tstiff_pb_eq_hessian (T : TCtx F) (ha : T.a ≠ 0) (hb : T.b ≠ 0) (hy : T.y2 - T.y1 ≠ 0) (ro co : Fin 3) :
+    T2D.pb.entry ro co T = surfHess T.toC (tsbOps T) (tsbW T) .p1 .p2 (fld3 ro) (fld3 co) := by
+  fin_cases ro <;> fin_cases co <;> stiff_eq_hess [tsbOps, tsbW, TCtx.toC, TCtx.JyBase, TCtx.c1]
+
+/-- `fkCbbpby1y2`: the base–base block (full integrals of the base's own functions, area element `a (y2 − y1)/4`) -/
+theorem tstiff_bb_eq_hessian (T : TCtx F) (ha : T.a ≠ 0) (hb : T.b ≠ 0) (hy : T.y2 - T.y1 ≠ 0) (ro co : Fin 3) :
+    T2D.bb.entry ro co T = surfHess T.toC (tsbOps T) (tsbW T) .p2 .p2 (fld3 ro) (fld3 co) := by
+  fin_cases ro <;> fin_cases co <;> stiff_eq_hess [tsbOps, tsbW, TCtx.toC, TCtx.JyBase, TCtx.c1]
+
+/-- the skin–base connection matrix `[[kCpp, kCpb], [kCpbᵀ, kCbb]]` of a T stiffener is SYMMETRIC.  `RealStripIntegrals` says that
+the three families of y integrals are what their names say: strip = `∫_{η₁}^{η₂}` skin·skin, mapped = `∫_{−1}^{1}` skin(`c0 + c1 η′`)·base(`η′`),
+full = `∫_{−1}^{1}` base·base, with `[η₁, η₂] = [c0 − c1, c0 + c1]`, `c1 = (y2 − y1)/b > 0` -/
+theorem tstiff_skin_base_symmetric (base : TCtx ℝ) (Jx : StripXIntegrals) (Jy : StripYIntegrals)
+    (ha : base.a ≠ 0) (hb : base.b ≠ 0) (hy : base.y2 - base.y1 ≠ 0)
+    (X : Nat → Fld → Pan → Nat → ℝ → ℝ) (S Bq : Nat → Fld → Nat → ℝ → ℝ) (x₁ x₂ c0 : ℝ)
+    (hR : RealStripIntegrals Jx Jy X S Bq x₁ x₂ c0 base.c1) (pA pB : Pan) (ro co : Fin 3) (i k j l : Nat) :
+    stripEntry T2D.pp.entry T2D.pb.entry T2D.bb.entry base Jx Jy pA pB ro co i k j l
+      = stripEntry T2D.pp.entry T2D.pb.entry T2D.bb.entry base Jx Jy pB pA co ro k i l j := by
+  cases pA <;> cases pB <;> simp only [stripEntry]
+  · rw [tstiff_pp_eq_hessian (tctxAt base Jx Jy i k j l) ha hb hy, tstiff_pp_eq_hessian (tctxAt base Jx Jy k i l j) ha hb hy,
+      tctxAt_toC, tctxAt_toC]
+    exact (surfHess_transpose base.toC _ noEvals X _ x₁ x₂ (-1) 1 hR.surf (tsbOps base) (tsbW base) _ _ _ _ _ _ _ _).symm
+  · rw [tstiff_bb_eq_hessian (tctxAt base Jx Jy i k j l) ha hb hy, tstiff_bb_eq_hessian (tctxAt base Jx Jy k i l j) ha hb hy,
+      tctxAt_toC, tctxAt_toC]
+    exact (surfHess_transpose base.toC _ noEvals X _ x₁ x₂ (-1) 1 hR.surf (tsbOps base) (tsbW base) _ _ _ _ _ _ _ _).symm
+
+/-- … and POSITIVE SEMI-DEFINITE for `kt ≥ 0`, `a (y2 − y1) ≥ 0`: `cᵀ K c = kt ∬_strip |⟦u⟧|²` of the field with amplitudes `c` -/
+theorem tstiff_skin_base_psd {ι : Type} (base : TCtx ℝ) (Jx : StripXIntegrals) (Jy : StripYIntegrals)
+    (ha : base.a ≠ 0) (hb : base.b ≠ 0) (hy : base.y2 - base.y1 ≠ 0) (hkt : 0 ≤ base.kt)
+    (hab : 0 ≤ base.a * (base.y2 - base.y1))
+    (X : Nat → Fld → Pan → Nat → ℝ → ℝ) (S Bq : Nat → Fld → Nat → ℝ → ℝ) (x₁ x₂ c0 : ℝ)
+    (hR : RealStripIntegrals Jx Jy X S Bq x₁ x₂ c0 base.c1)
+    (s : Finset ι) (pan : ι → Pan) (ro : ι → Fin 3) (ix iy : ι → Nat) (c : ι → ℝ) :
+    0 ≤ ∑ A ∈ s, ∑ B ∈ s, c A * c B *
+      stripEntry T2D.pp.entry T2D.pb.entry T2D.bb.entry base Jx Jy (pan A) (pan B) (ro A) (ro B)
+        (ix A) (ix B) (iy A) (iy B) :=
+  stripEntry_psd _ _ _ base Jx Jy hab hkt X S Bq x₁ x₂ c0 hR
+    (fun ro co i k j l => tstiff_pp_eq_hessian (tctxAt base Jx Jy i k j l) ha hb hy ro co)
+    (fun ro co i k j l => tstiff_pb_eq_hessian (tctxAt base Jx Jy i k j l) ha hb hy ro co)
+    (fun ro co i k j l => tstiff_bb_eq_hessian (tctxAt base Jx Jy i k j l) ha hb hy ro co) s pan ro ix iy c
+
+/-- non-vacuity: `a = 2`, bay width `b = 4`, strip `1 ≤ y ≤ 2` (`c0 = −1/4`, `c1 = 1/4`), `dpb = 1/100`, `kt = 1000`, monomial functions -/
+example {ι : Type} (s : Finset ι) (pan : ι → Pan) (ro : ι → Fin 3) (ix iy : ι → Nat) (c : ι → ℝ) :
+    0 ≤ ∑ A ∈ s, ∑ B ∈ s, c A * c B *
+      stripEntry T2D.pp.entry T2D.pb.entry T2D.bb.entry StiffExample.unitT StiffExample.stripJx StiffExample.stripJy
+        (pan A) (pan B) (ro A) (ro B) (ix A) (ix B) (iy A) (iy B) :=
+  tstiff_skin_base_psd _ _ _ (by norm_num [StiffExample.unitT]) (by norm_num [StiffExample.unitT])
+    (by norm_num [StiffExample.unitT]) (by norm_num [StiffExample.unitT]) (by norm_num [StiffExample.unitT])
+    _ _ _ (-1) 1 (-1 / 4) StiffExample.strip_real s pan ro ix iy c
+
+example (pA pB : Pan) (ro co : Fin 3) (i k j l : Nat) :
+    stripEntry T2D.pp.entry T2D.pb.entry T2D.bb.entry StiffExample.unitT StiffExample.stripJx StiffExample.stripJy pA pB ro co i k j l
+      = stripEntry T2D.pp.entry T2D.pb.entry T2D.bb.entry StiffExample.unitT StiffExample.stripJx StiffExample.stripJy
+          pB pA co ro k i l j :=
+  tstiff_skin_base_symmetric _ _ _ (by norm_num [StiffExample.unitT]) (by norm_num [StiffExample.unitT])
+    (by norm_num [StiffExample.unitT]) _ _ _ (-1) 1 (-1 / 4) StiffExample.strip_real pA pB ro co i k j l
+
+/-! #### 1-D blade flange (`bladestiff1d_clt_donnell_bardell.pyx`): a beam on the skin line `y = ys` -/
+
+/-- `fk0f`: every entry is the Hessian of the beam strain energy `½ ∫_0^a bf [E1 ε² + F1 κ² + Jxx τ² − 2 S1 ε τ] dx` with
+`ε = u,x + df·w,xx`, `κ = w,xx`, `τ = w,xy` of the skin field on the stiffener line (`beamStrainOps`, `beamLaw`) -/
+theorem blade1d_k0f_eq_hessian (B : BCtx F) (ha : B.a ≠ 0) (hb : B.b ≠ 0) (ro co : Fin 3) :
+    Blade1D.k0f.entry ro co B = lineEnergyHess B (beamStrainOps B) (beamLaw B) (fld3 ro) (fld3 co) := by
+  fin_cases ro <;> fin_cases co <;> entry_eq_form [lineEnergyHess, BCtx.toP, beamStrainOps, beamLaw]
+
+/-- `fkG0f`: Hessian of the pre-stress work `½ ∫_0^a Fx (w,x)² dx` of the flange's axial force on the skin line -/
+theorem blade1d_kG0f_eq_hessian (B : BCtx F) (ha : B.a ≠ 0) (ro co : Fin 3) :
+    Blade1D.kG0f.entry ro co B = lineEnergyHess B (beamSlopeOps B) (beamPreload B) (fld3 ro) (fld3 co) := by
+  fin_cases ro <;> fin_cases co <;> entry_eq_form [lineEnergyHess, BCtx.toP, beamSlopeOps, beamPreload]
+
+set_option maxHeartbeats 2000000 in
+/-- `fkMf` AS ENCODED: Hessian of `½ ∫_0^a μ bf hf [u̇² + v̇² + ẇ² + 2·(2 df)(u̇ ẇ,x + v̇ ẇ,y) + I (ẇ,x² + ẇ,y²)] dx`, `I = beamRotaryInertia`
+(the long literal `0.166666666666667` read as `1/6`, `Gen/Stiff/Literals.lean`).  The coupling weight is `2·df`; the kinetic energy of a
+blade whose material points move with `(u̇ − z ẇ,x, v̇ − z ẇ,y, ẇ)` has `∓df` (finding `C13-blade1d-flange-mass-coupling-doubled`). -/
+theorem blade1d_kMf_eq_hessian (B : BCtx F) (ha : B.a ≠ 0) (hb : B.b ≠ 0) (ro co : Fin 3) :
+    Blade1D.kMf.entry ro co B = lineEnergyHess B (beamVelocityOps B) (beamMassW 2 B) (fld3 ro) (fld3 co) := by
+  fin_cases ro <;> fin_cases co <;> entry_eq_form [lineEnergyHess, BCtx.toP, beamVelocityOps, beamMassW, beamRotaryInertia]
+
+/-- the three flange kernels are SYMMETRIC: the value for the pair of skin degrees of freedom `(ro, i, j)`, `(co, k, l)` equals the value
+for the exchanged pair (the integrals along x commute in their two factors) -/
+theorem blade1d_k0f_symmetric (base : BCtx ℝ) (J : BeamIntegrals) (E : BeamEvals)
+    (hJ : ∀ d₁ f₁ a d₂ f₂ b, J d₁ f₁ a d₂ f₂ b = J d₂ f₂ b d₁ f₁ a) (ha : base.a ≠ 0) (hb : base.b ≠ 0)
+    (ro co : Fin 3) (i k j l : Nat) :
+    Blade1D.k0f.entry ro co (bctxAt base J E i k j l) = Blade1D.k0f.entry co ro (bctxAt base J E k i l j) := by
+  rw [blade1d_k0f_eq_hessian (bctxAt base J E i k j l) ha hb, blade1d_k0f_eq_hessian (bctxAt base J E k i l j) ha hb]
+  exact (lineEnergyHess_swap base J E hJ (beamStrainOps base) (beamLaw base) (beamLaw_symm base) _ _ i k j l).symm
+
+theorem blade1d_kG0f_symmetric (base : BCtx ℝ) (J : BeamIntegrals) (E : BeamEvals)
+    (hJ : ∀ d₁ f₁ a d₂ f₂ b, J d₁ f₁ a d₂ f₂ b = J d₂ f₂ b d₁ f₁ a) (ha : base.a ≠ 0) (ro co : Fin 3) (i k j l : Nat) :
+    Blade1D.kG0f.entry ro co (bctxAt base J E i k j l) = Blade1D.kG0f.entry co ro (bctxAt base J E k i l j) := by
+  rw [blade1d_kG0f_eq_hessian (bctxAt base J E i k j l) ha, blade1d_kG0f_eq_hessian (bctxAt base J E k i l j) ha]
+  exact (lineEnergyHess_swap base J E hJ (beamSlopeOps base) (beamPreload base) (fun _ _ => rfl) _ _ i k j l).symm
+
+theorem blade1d_kMf_symmetric (base : BCtx ℝ) (J : BeamIntegrals) (E : BeamEvals)
+    (hJ : ∀ d₁ f₁ a d₂ f₂ b, J d₁ f₁ a d₂ f₂ b = J d₂ f₂ b d₁ f₁ a) (ha : base.a ≠ 0) (hb : base.b ≠ 0)
+    (ro co : Fin 3) (i k j l : Nat) :
+    Blade1D.kMf.entry ro co (bctxAt base J E i k j l) = Blade1D.kMf.entry co ro (bctxAt base J E k i l j) := by
+  rw [blade1d_kMf_eq_hessian (bctxAt base J E i k j l) ha hb, blade1d_kMf_eq_hessian (bctxAt base J E k i l j) ha hb]
+  exact (lineEnergyHess_swap base J E hJ (beamVelocityOps base) (beamMassW 2 base) (beamMassW_symm 2 base) _ _ i k j l).symm
+
+/-- `fk0f` is POSITIVE SEMI-DEFINITE over any finite family of skin degrees of freedom when the beam law it is handed is:
+`bf, E1, F1, Jxx ≥ 0` and `S1² ≤ E1·Jxx` (and `a ≥ 0`).  The last condition is a hypothesis on the CALLER: `BladeStiff1D` passes a purely
+geometric `Jxx`, and `S1² ≤ E1·Jxx` fails for flange laminates with off-axis plies (finding `C13-blade1d-twist-stiffness-without-modulus`). -/
+theorem blade1d_k0f_psd {ι : Type} (base : BCtx ℝ) (J : BeamIntegrals) (E : BeamEvals) (ha : base.a ≠ 0) (hb : base.b ≠ 0)
+    (hpos : 0 ≤ base.a) (hbf : 0 ≤ base.bf) (hE : 0 ≤ base.E1) (hF : 0 ≤ base.F1) (hJx : 0 ≤ base.Jxx)
+    (hS : base.S1 * base.S1 ≤ base.E1 * base.Jxx)
+    (X : Nat → Fld → Nat → ℝ → ℝ) (x₁ x₂ : ℝ) (hR : RealBeamIntegrals J X x₁ x₂)
+    (s : Finset ι) (ro : ι → Fin 3) (ix iy : ι → Nat) (c : ι → ℝ) :
+    0 ≤ ∑ A ∈ s, ∑ B ∈ s, c A * c B * Blade1D.k0f.entry (ro A) (ro B) (bctxAt base J E (ix A) (ix B) (iy A) (iy B)) := by
+  simp only [fun A B => blade1d_k0f_eq_hessian (bctxAt base J E (ix A) (ix B) (iy A) (iy B)) ha hb (ro A) (ro B)]
+  exact lineEnergyHess_psd base J E X x₁ x₂ hR (beamStrainOps base) (beamLaw base) (beamLaw_psd base hbf hE hF hJx hS) hpos
+    s (fun A => fld3 (ro A)) ix iy c
+
+/-- the hypothesis `S1² ≤ E1·Jxx` of `blade1d_k0f_psd` cannot be dropped: for `bf, E1 > 0` and `E1·Jxx < S1²` the beam law `fk0f` integrates is
+indefinite (state `ε = S1`, `τ = E1`), which is the situation of finding `C13-blade1d-twist-stiffness-without-modulus` -/
+theorem blade1d_beam_law_indefinite (B : BCtx ℝ) (hbf : 0 < B.bf) (hE : 0 < B.E1) (hS : B.E1 * B.Jxx < B.S1 * B.S1) :
+    ¬ WeightPSD (beamLaw B) :=
+  beamLaw_not_psd B hbf hE hS
+
+/-- `fkG0f` is positive semi-definite for a tensile flange force `Fx ≥ 0` (its quadratic form is `Fx ∫ (w,x)² dx`; for `Fx ≤ 0` apply
+this to `−Fx`: the kernel is linear in `Fx`) -/
+theorem blade1d_kG0f_psd {ι : Type} (base : BCtx ℝ) (J : BeamIntegrals) (E : BeamEvals) (ha : base.a ≠ 0)
+    (hpos : 0 ≤ base.a) (hFx : 0 ≤ base.Fx)
+    (X : Nat → Fld → Nat → ℝ → ℝ) (x₁ x₂ : ℝ) (hR : RealBeamIntegrals J X x₁ x₂)
+    (s : Finset ι) (ro : ι → Fin 3) (ix iy : ι → Nat) (c : ι → ℝ) :
+    0 ≤ ∑ A ∈ s, ∑ B ∈ s, c A * c B * Blade1D.kG0f.entry (ro A) (ro B) (bctxAt base J E (ix A) (ix B) (iy A) (iy B)) := by
+  simp only [fun A B => blade1d_kG0f_eq_hessian (bctxAt base J E (ix A) (ix B) (iy A) (iy B)) ha (ro A) (ro B)]
+  exact lineEnergyHess_psd base J E X x₁ x₂ hR (beamSlopeOps base) (beamPreload base) (beamPreload_psd base hFx) hpos
+    s (fun A => fld3 (ro A)) ix iy c
+
+/-- PARTIAL: `fkMf` is positive semi-definite only under `(2 df)² ≤ I` (`I = beamRotaryInertia`).  What is missing for the full
+statement "the flange adds a positive semi-definite mass": for the geometry `BladeStiff1D` passes (`df = bf/2 + hb + h/2`, so
+`I = df² + bf²/12`) this hypothesis is FALSE whenever `bf > 0` (`blade1d_mass_weight_encoded_not_psd`), and the kernel is then not
+positive semi-definite (`blade1d_kMf_not_psd_counterexample`); with the coupling of the kinetic energy (`|κ| = 1`) it would hold
+(`blade1d_mass_weight_consistent_psd`). -/
+theorem blade1d_kMf_psd_partial {ι : Type} (base : BCtx ℝ) (J : BeamIntegrals) (E : BeamEvals) (ha : base.a ≠ 0) (hb : base.b ≠ 0)
+    (hpos : 0 ≤ base.a) (hM : 0 ≤ base.mu * base.bf * base.hf)
+    (hI : (2 * base.df) * (2 * base.df) ≤ beamRotaryInertia base)
+    (X : Nat → Fld → Nat → ℝ → ℝ) (x₁ x₂ : ℝ) (hR : RealBeamIntegrals J X x₁ x₂)
+    (s : Finset ι) (ro : ι → Fin 3) (ix iy : ι → Nat) (c : ι → ℝ) :
+    0 ≤ ∑ A ∈ s, ∑ B ∈ s, c A * c B * Blade1D.kMf.entry (ro A) (ro B) (bctxAt base J E (ix A) (ix B) (iy A) (iy B)) := by
+  simp only [fun A B => blade1d_kMf_eq_hessian (bctxAt base J E (ix A) (ix B) (iy A) (iy B)) ha hb (ro A) (ro B)]
+  exact lineEnergyHess_psd base J E X x₁ x₂ hR (beamVelocityOps base) (beamMassW 2 base) (beamMassW_psd 2 base hM hI) hpos
+    s (fun A => fld3 (ro A)) ix iy c
+
+/-- for the geometry the caller passes the ENCODED mass weight (coupling `2 df`) is NOT positive semi-definite … -/
+theorem blade1d_mass_weight_encoded_not_psd (B : BCtx ℝ) (hdf : B.df = B.bf / 2 + B.hb + B.h / 2) (hbf : 0 < B.bf)
+    (hh : 0 ≤ B.h) (hhb : 0 ≤ B.hb) (hM : 0 < B.mu * B.bf * B.hf) : ¬ WeightPSD (beamMassW 2 B) := by
+  refine beamMassW_not_psd 2 B hM ?_
+  rw [beamRotaryInertia_eq B hdf]
+  have hd : B.bf / 2 ≤ B.df := by rw [hdf]; linarith
+  nlinarith [mul_self_nonneg (B.df - B.bf / 2), mul_pos hbf hbf]
+
+/-- … while the weight of the blade's kinetic energy (coupling `∓df`) is -/
+theorem blade1d_mass_weight_consistent_psd (B : BCtx ℝ) (hdf : B.df = B.bf / 2 + B.hb + B.h / 2)
+    (hM : 0 ≤ B.mu * B.bf * B.hf) : WeightPSD (beamMassW 1 B) ∧ WeightPSD (beamMassW (-1) B) := by
+  have hI := beamRotaryInertia_eq B hdf
+  constructor <;> refine beamMassW_psd _ B hM ?_ <;> rw [hI] <;> nlinarith [mul_self_nonneg B.bf]
+
+/-- REFUTATION of "the 1-D blade flange adds a positive semi-definite mass": a blade with `a = 2`, `b = 1`, `bf = 1`, `h = hb = 0`,
+`df = bf/2`, `μ = hf = 1`; one in-plane function `u = ξ`, one deflection function `w = ξ²/2` (y functions with value 1 and slope 0 on the
+stiffener line; the integrals along x are the real integrals of these polynomials: `cexJ_real`); amplitudes `c_u = −1`, `c_w = 1`:
+the quadratic form of `fkMf` is `2/3 − 2·(2/3) + 29/90 = −31/90 < 0`. -/
+theorem blade1d_kMf_not_psd_counterexample :
+    RealBeamIntegrals StiffExample.cexJ StiffExample.cexX (-1) 1 ∧
+    StiffExample.cexBlade.df = StiffExample.cexBlade.bf / 2 + StiffExample.cexBlade.hb + StiffExample.cexBlade.h / 2 ∧
+    ∑ A : Bool, ∑ B : Bool, StiffExample.cexC A * StiffExample.cexC B *
+      Blade1D.kMf.entry (StiffExample.cexRo A) (StiffExample.cexRo B)
+        (bctxAt StiffExample.cexBlade StiffExample.cexJ StiffExample.cexE 0 0 0 0) = -31 / 90 := by
+  refine ⟨StiffExample.cexJ_real, by norm_num [StiffExample.cexBlade], ?_⟩
+  simp only [Fintype.sum_bool, StiffExample.cexRo, StiffExample.cexC, panel_entry, bctxAt, pick, StiffExample.cexBlade,
+    StiffExample.cexE, StiffExample.cexJ_uu, StiffExample.cexJ_uw1, StiffExample.cexJ_w1u, StiffExample.cexJ_w1w1,
+    StiffExample.cexJ_ww]
+  norm_num
+
+/-- non-vacuity of the 1-D blade theorems: `unitBlade` (cross-ply-like law `S1² = 10⁶ ≤ E1·Jxx = 10⁷`), monomial skin functions -/
+example {ι : Type} (s : Finset ι) (ro : ι → Fin 3) (ix iy : ι → Nat) (c : ι → ℝ) :
+    0 ≤ ∑ A ∈ s, ∑ B ∈ s, c A * c B *
+      Blade1D.k0f.entry (ro A) (ro B) (bctxAt StiffExample.unitBlade StiffExample.beamJ StiffExample.beamE (ix A) (ix B) (iy A) (iy B)) :=
+  blade1d_k0f_psd _ _ _ (by norm_num [StiffExample.unitBlade]) (by norm_num [StiffExample.unitBlade])
+    (by norm_num [StiffExample.unitBlade]) (by norm_num [StiffExample.unitBlade]) (by norm_num [StiffExample.unitBlade])
+    (by norm_num [StiffExample.unitBlade]) (by norm_num [StiffExample.unitBlade]) (by norm_num [StiffExample.unitBlade])
+    _ (-1) 1 StiffExample.beamJ_real s ro ix iy c
+
+example {ι : Type} (s : Finset ι) (ro : ι → Fin 3) (ix iy : ι → Nat) (c : ι → ℝ) :
+    0 ≤ ∑ A ∈ s, ∑ B ∈ s, c A * c B *
+      Blade1D.kG0f.entry (ro A) (ro B) (bctxAt StiffExample.unitBlade StiffExample.beamJ StiffExample.beamE (ix A) (ix B) (iy A) (iy B)) :=
+  blade1d_kG0f_psd _ _ _ (by norm_num [StiffExample.unitBlade]) (by norm_num [StiffExample.unitBlade])
+    (by norm_num [StiffExample.unitBlade]) _ (-1) 1 StiffExample.beamJ_real s ro ix iy c
+
+example (ro co : Fin 3) (i k j l : Nat) :
+    Blade1D.kMf.entry ro co (bctxAt StiffExample.unitBlade StiffExample.beamJ StiffExample.beamE i k j l)
+      = Blade1D.kMf.entry co ro (bctxAt StiffExample.unitBlade StiffExample.beamJ StiffExample.beamE k i l j) :=
+  blade1d_kMf_symmetric _ _ _ StiffExample.beamJ_comm (by norm_num [StiffExample.unitBlade]) (by norm_num [StiffExample.unitBlade])
+    ro co i k j l
+
+/-- the hypothesis of `blade1d_kMf_psd_partial` can be met (a flange far thinner in height than its rotary arm: `df = 0`) — and is not by `unitBlade` -/
+example : ¬ WeightPSD (beamMassW 2 StiffExample.unitBlade) :=
+  blade1d_mass_weight_encoded_not_psd _ (by norm_num [StiffExample.unitBlade]) (by norm_num [StiffExample.unitBlade])
+    (by norm_num [StiffExample.unitBlade]) (by norm_num [StiffExample.unitBlade]) (by norm_num [StiffExample.unitBlade])
+
+/-- non-vacuity of `blade1d_beam_law_indefinite`: `unitBlade` with an off-axis coupling `S1 = 4000` (`S1² = 1.6·10⁷ > E1·Jxx = 10⁷`) -/
+example : ¬ WeightPSD (beamLaw { StiffExample.unitBlade with S1 := 4000 }) :=
+  blade1d_beam_law_indefinite _ (by norm_num [StiffExample.unitBlade]) (by norm_num [StiffExample.unitBlade])
+    (by norm_num [StiffExample.unitBlade])
+
+end stiffener_kernels
 
 end Compmech.Asm.C13
